@@ -39,6 +39,7 @@ import (
 	"strconv"
 	"strings"
 	"sync"
+	"sync/atomic"
 	"time"
 
 	"github.com/wader/fq/internal/verifharness/hlib"
@@ -146,6 +147,7 @@ func refBatch(text string, in any, n int) (res []Obs, ok bool) {
 		}
 		ctx, cancel := context.WithTimeout(context.Background(), 4*evalTimeout)
 		defer cancel()
+		defer registerCancel(cancel)()
 		res, ok = splitBatch(code.RunWithContext(ctx, nil, in), ctx, n)
 		return ""
 	})
@@ -159,6 +161,7 @@ func (f *fqInst) fqBatch(text string, n int) (res []Obs, ok bool) {
 	_, panicked := hlib.Catch(func() string {
 		ctx, cancel := context.WithTimeout(context.Background(), 4*evalTimeout)
 		defer cancel()
+		defer registerCancel(cancel)()
 		it, err := f.i.Eval(ctx, nil, text, interp.EvalOpts{})
 		if err != nil {
 			return ""
@@ -213,10 +216,10 @@ type sizes struct {
 }
 
 func main() {
-	facts := false
+	facts, jsontext := false, false
 	for i, a := range os.Args {
-		if a == "-facts" {
-			facts = true
+		if a == "-facts" || a == "-jsontext" {
+			facts, jsontext = a == "-facts", a == "-jsontext"
 			os.Args = append(os.Args[:i], os.Args[i+1:]...)
 			break
 		}
@@ -239,6 +242,10 @@ func main() {
 	}
 	if cfg.Replay != "" {
 		replay(o, cfg.Replay)
+		return
+	}
+	if jsontext {
+		emitJSONText(o, cfg)
 		return
 	}
 	sz := sizes{inputs: 24, progs: 1500, extra: 2, cli: 100, workers: 4, batchShare: 60}
@@ -455,6 +462,7 @@ func generate(o *hlib.Out, cfg hlib.Config, sz sizes) {
 				c.known = classifyDirect(f, text, a)
 			}
 		}
+		o.Stat("memory_watchdog_hits", int(atomic.LoadInt64(&memHits)))
 		o.Stat("timeouts_second_look", retried)
 		o.Stat("timeouts_second_look_agree", recovered)
 	}
@@ -658,6 +666,21 @@ func replay(o *hlib.Out, path string) {
 		in, err := parseJSONExact(inJSON)
 		if err != nil {
 			o.Verdict("BADOP", l+" :: input: "+err.Error())
+			continue
+		}
+		if mode == "j" {
+			text, isStr := in.(string)
+			if !isStr {
+				o.Verdict("BADOP", l+" :: mode j wants a JSON string")
+				continue
+			}
+			ok, obs := jsonTextCase(f, text, prog)
+			o.N++
+			if ok {
+				o.Verdict("OK", "j "+inJSON+sepInProg+prog)
+			} else {
+				o.Verdict("PROPFAIL", "j "+inJSON+sepInProg+prog+sepObs+obs)
+			}
 			continue
 		}
 		if err := f.setIn(in); err != nil {
